@@ -60,24 +60,28 @@ def atoms (t : List Atom) : List Pos := t.zipIdx
 
 /-! ### two chains -/
 
-/-- `p` is an atom of chain `X`, `q` an atom of chain `Y`, both pass the filters, and they lie within the cutoff -/
-def contactXY (P : Params) (X Y : Str) (p q : Pos) : Bool :=
-  decide (p.1.chainID = X) && decide (q.1.chainID = Y) && passes P p.1 && passes P q.1 && near P p.1 q.1
+/-- the atoms of chain `X`, in table order -/
+def chainAtoms (t : List Atom) (X : Str) : List Pos :=
+  (atoms t).filter (fun p => decide (p.1.chainID = X))
 
-/-- the partners of `p` in chain `Y`, in table order -/
-def partners (P : Params) (t : List Atom) (X Y : Str) (p : Pos) : List Nat :=
-  ((atoms t).filter (contactXY P X Y p)).map (·.2)
+/-- both atoms pass the filters and they lie within the cutoff of each other -/
+def touches (P : Params) (p q : Pos) : Bool :=
+  passes P p.1 && passes P q.1 && near P p.1 q.1
 
-def hasPartner (P : Params) (t : List Atom) (X Y : Str) (p : Pos) : Bool :=
-  (atoms t).any (contactXY P X Y p)
+/-- the partners of atom `p` in chain `Y`, in table order -/
+def partners (P : Params) (t : List Atom) (Y : Str) (p : Pos) : List Nat :=
+  ((chainAtoms t Y).filter (touches P p)).map (·.2)
 
-/-- contact atoms of chain `X` with respect to chain `Y` (ascending positions) -/
+/-- contact atoms of chain `X` with respect to chain `Y` (ascending positions): the atoms of `X` that pass the filters and
+    lie within the cutoff of at least one filter-passing atom of `Y` -/
 def contactAtoms (P : Params) (t : List Atom) (X Y : Str) : List Nat :=
-  ((atoms t).filter (hasPartner P t X Y)).map (·.2)
+  let ys := chainAtoms t Y
+  ((chainAtoms t X).filter (fun p => ys.any (touches P p))).map (·.2)
 
 /-- the pair map of (first chain `X`, second chain `Y`): for exactly the contact atoms of `X`, their partners in `Y` -/
 def pairMap (P : Params) (t : List Atom) (X Y : Str) : List (Nat × List Nat) :=
-  ((atoms t).filter (hasPartner P t X Y)).map (fun p => (p.2, partners P t X Y p))
+  let ys := chainAtoms t Y
+  ((chainAtoms t X).filter (fun p => ys.any (touches P p))).map (fun p => (p.2, partners P t Y p))
 
 /-- what is reported per chain for the chain pair `(A, B)` -/
 def twoChains (P : Params) (t : List Atom) (A B : Str) : List (Str × List Nat) :=
@@ -101,7 +105,7 @@ def allChains (P : Params) (t : List Atom) : List (Str × List Nat) :=
 
 /-- a contacting pair of atoms of two different chains, `p`'s chain coming first -/
 def contactFirst (P : Params) (p q : Pos) : Bool :=
-  strLt p.1.chainID q.1.chainID && passes P p.1 && passes P q.1 && near P p.1 q.1
+  strLt p.1.chainID q.1.chainID && touches P p q
 
 /-- `m` is an all-chains pair map of `t`: it contains every contacting pair of atoms from two different chains exactly
     once, listed under the atom whose chain comes first (and nothing else) -/
